@@ -16,6 +16,11 @@ base and Chinese):
                 into future_value at every call site), the backward-moved one to past_value.
   C09.order     _date_time_resolution (base and Chinese) emits resolveToPast before resolveToFuture, each from the
                 resolution of the same name; _resolve_ampm is applied in the same order.
+  C09.feb29     DateUtils.generate_dates is evaluated by a small concrete interpreter (DateUtils helpers interpreted from
+                their source) on midnight references before / on / after 29 February in leap and non-leap years, and on plain
+                month/day probes: past = latest occurrence strictly before the reference date, future = earliest on or after.
+  C09.weekday   the bare-weekday branch (base and Chinese) is evaluated over weekday table values 0..7 x 7 reference weekdays
+                x 00:00/12:00 against the same specification; the sibling implementations must agree.
 """
 import ast
 
@@ -622,6 +627,563 @@ def rule_polarity(chk, idx, scoped):
         raise AnalysisError('fewer than 2 call sites of generate_dates found (%d)' % ncall)
 
 
+# ---------------------------------------------------------------------------------------------------
+# concrete mini-interpreter (own evaluation of a small Python subset; nothing from /repo is imported or executed)
+
+import datetime as _dt
+
+
+class Unreadable(Exception):
+    """the interpreter met a construct / value it cannot follow"""
+
+
+class PyRaise(Exception):
+    """the interpreted code raises (e.g. ValueError from datetime(2017, 2, 29))"""
+
+    def __init__(self, exc):
+        Exception.__init__(self, repr(exc))
+        self.exc = exc
+
+
+class _Return(Exception):
+    def __init__(self, value):
+        self.value = value
+
+
+class Opaque:
+    """a value the interpreter does not model (results of unknown calls, self, regex matches ...)"""
+
+    def __repr__(self):
+        return '<opaque>'
+
+
+OPAQUE = Opaque()
+
+
+class Obj:
+    """attribute bag standing in for result objects"""
+
+    def __init__(self):
+        self.attrs = {}
+
+
+class ClassRef:
+    def __init__(self, cls):
+        self.cls = cls
+
+
+class FuncRef:
+    def __init__(self, mod, cls, fn):
+        self.mod, self.cls, self.fn = mod, cls, fn
+
+
+BUILTINS = {'int': int, 'str': str, 'len': len, 'abs': abs, 'min': min, 'max': max, 'bool': bool, 'round': round,
+            'datetime': _dt.datetime, 'timedelta': _dt.timedelta, 'list': list, 'tuple': tuple, 'range': range}
+DT_METHODS = {'isoweekday', 'weekday', 'replace', 'date', 'isocalendar', 'toordinal'}
+TD_KW = {'days', 'weeks', 'hours', 'minutes', 'seconds'}
+CONCRETE = (int, bool, str, type(None), _dt.datetime, _dt.timedelta, _dt.date, list, tuple, float)
+
+
+class Interp:
+    def __init__(self, idx, hooks=(), budget=20000):
+        self.idx = idx
+        self.hooks = list(hooks)        # [(predicate(call node) -> bool, value)]
+        self.budget = budget
+        self.depth = 0
+
+    # ---- names
+    def lookup(self, name, env, ctx):
+        if name in env:
+            return env[name]
+        mod, cls, fn = ctx
+        if fn is not None:                                   # function-level `from x import y`
+            for n in ast.walk(fn):
+                if isinstance(n, ast.ImportFrom):
+                    for al in n.names:
+                        if (al.asname or al.name) == name:
+                            src = self.idx.mods.get(self.idx._abs(mod, n.level, n.module))
+                            if src is not None:
+                                r = self.idx.resolve(src, al.name)
+                                if r and r[0] == 'class':
+                                    return ClassRef(r[1])
+        r = self.idx.resolve(mod, name) if mod is not None else None
+        if r:
+            if r[0] == 'class':
+                return ClassRef(r[1])
+            if r[0] == 'func':
+                return FuncRef(r[1], None, r[2])
+            if r[0] == 'const':
+                try:
+                    return self.eval(r[2], {}, (r[1], None, None))
+                except Unreadable:
+                    return OPAQUE
+        if name in BUILTINS:
+            return BUILTINS[name]
+        return OPAQUE
+
+    # ---- expressions
+    def eval(self, e, env, ctx):
+        self.budget -= 1
+        if self.budget < 0:
+            raise Unreadable('evaluation budget exhausted')
+        if isinstance(e, ast.Constant):
+            return e.value
+        if isinstance(e, ast.Name):
+            return self.lookup(e.id, env, ctx)
+        if isinstance(e, (ast.List, ast.Tuple)):
+            vals = [self.eval(x, env, ctx) for x in e.elts]
+            return vals if isinstance(e, ast.List) else tuple(vals)
+        if isinstance(e, ast.Attribute):
+            base = self.eval(e.value, env, ctx)
+            if isinstance(base, Obj):
+                return base.attrs.get(e.attr, OPAQUE)
+            if isinstance(base, ClassRef):
+                k, v = self.idx.class_attr(base.cls, e.attr)
+                if v is not None:
+                    return self.eval(v, {}, (k.mod, k, None))
+                k, f = self.idx.find_method(base.cls, e.attr)
+                if f is not None:
+                    return FuncRef(k.mod, k, f)
+                return OPAQUE
+            if isinstance(base, (_dt.datetime, _dt.date, _dt.timedelta)):
+                if e.attr in ('year', 'month', 'day', 'hour', 'minute', 'second', 'microsecond', 'days', 'seconds'):
+                    return getattr(base, e.attr)
+                if e.attr in DT_METHODS:
+                    return ('bound', base, e.attr)
+                return OPAQUE
+            if isinstance(base, type) and base is _dt.datetime and e.attr in ('now', 'today', 'min'):
+                return OPAQUE
+            return OPAQUE
+        if isinstance(e, ast.Call):
+            return self.call(e, env, ctx)
+        if isinstance(e, ast.IfExp):
+            t = self.eval(e.test, env, ctx)
+            if isinstance(t, Opaque):
+                return OPAQUE
+            return self.eval(e.body if t else e.orelse, env, ctx)
+        if isinstance(e, ast.BoolOp):
+            last = None
+            for v in e.values:
+                last = self.eval(v, env, ctx)
+                if isinstance(last, Opaque):
+                    return OPAQUE
+                if isinstance(e.op, ast.And) and not last:
+                    return last
+                if isinstance(e.op, ast.Or) and last:
+                    return last
+            return last
+        if isinstance(e, ast.UnaryOp):
+            v = self.eval(e.operand, env, ctx)
+            if isinstance(v, Opaque):
+                return OPAQUE
+            if isinstance(e.op, ast.Not):
+                return not v
+            if isinstance(e.op, ast.USub):
+                return -v
+            return +v
+        if isinstance(e, ast.BinOp):
+            a, b = self.eval(e.left, env, ctx), self.eval(e.right, env, ctx)
+            if not isinstance(a, CONCRETE) or not isinstance(b, CONCRETE):
+                return OPAQUE
+            try:
+                return self.binop(e.op, a, b)
+            except (TypeError, ValueError, OverflowError, ZeroDivisionError) as ex:
+                raise PyRaise(ex)
+        if isinstance(e, ast.Compare):
+            terms = [self.eval(t, env, ctx) for t in [e.left] + list(e.comparators)]
+            res = True
+            for i, op in enumerate(e.ops):
+                a, b = terms[i], terms[i + 1]
+                if isinstance(op, (ast.Is, ast.IsNot)):
+                    if isinstance(a, Opaque) or isinstance(b, Opaque):
+                        return OPAQUE
+                    r = (a is b) if isinstance(op, ast.Is) else (a is not b)
+                else:
+                    if not isinstance(a, CONCRETE) or not isinstance(b, CONCRETE):
+                        return OPAQUE
+                    try:
+                        r = {ast.Eq: lambda: a == b, ast.NotEq: lambda: a != b, ast.Lt: lambda: a < b, ast.LtE: lambda: a <= b,
+                             ast.Gt: lambda: a > b, ast.GtE: lambda: a >= b, ast.In: lambda: a in b,
+                             ast.NotIn: lambda: a not in b}[type(op)]()
+                    except TypeError as ex:
+                        raise PyRaise(ex)
+                res = res and r
+                if not res:
+                    return False
+            return res
+        if isinstance(e, ast.JoinedStr):
+            out = ''
+            for v in e.values:
+                if isinstance(v, ast.Constant):
+                    out += str(v.value)
+                else:
+                    x = self.eval(v.value, env, ctx)
+                    if not isinstance(x, CONCRETE):
+                        return OPAQUE
+                    spec = ''.join(p.value for p in v.format_spec.values if isinstance(p, ast.Constant)) if v.format_spec else ''
+                    try:
+                        out += format(x, spec)
+                    except (TypeError, ValueError) as ex:
+                        raise PyRaise(ex)
+            return out
+        if isinstance(e, ast.Subscript):
+            base = self.eval(e.value, env, ctx)
+            if not isinstance(base, (list, tuple, str)):
+                return OPAQUE
+            if isinstance(e.slice, ast.Slice):
+                lo = self.eval(e.slice.lower, env, ctx) if e.slice.lower else None
+                hi = self.eval(e.slice.upper, env, ctx) if e.slice.upper else None
+                if isinstance(lo, Opaque) or isinstance(hi, Opaque):
+                    return OPAQUE
+                return base[lo:hi]
+            i = self.eval(e.slice, env, ctx)
+            if not isinstance(i, int):
+                return OPAQUE
+            try:
+                return base[i]
+            except IndexError as ex:
+                raise PyRaise(ex)
+        return OPAQUE
+
+    @staticmethod
+    def binop(op, a, b):
+        if isinstance(op, ast.Add):
+            return a + b
+        if isinstance(op, ast.Sub):
+            return a - b
+        if isinstance(op, ast.Mult):
+            return a * b
+        if isinstance(op, ast.FloorDiv):
+            return a // b
+        if isinstance(op, ast.Div):
+            return a / b
+        if isinstance(op, ast.Mod):
+            return a % b
+        if isinstance(op, ast.LShift):
+            return a << b
+        if isinstance(op, ast.RShift):
+            return a >> b
+        raise Unreadable('operator ' + type(op).__name__)
+
+    def call(self, e, env, ctx):
+        for pred, value in self.hooks:
+            if pred(e):
+                return value() if callable(value) else value
+        f = self.eval(e.func, env, ctx)
+        args = [self.eval(a, env, ctx) for a in e.args]
+        kwargs = {k.arg: self.eval(k.value, env, ctx) for k in e.keywords if k.arg}
+        if isinstance(f, Opaque):
+            return OPAQUE
+        opaque_arg = any(isinstance(a, Opaque) for a in args) or any(isinstance(v, Opaque) for v in kwargs.values())
+        if isinstance(f, tuple) and len(f) == 3 and f[0] == 'bound':
+            if opaque_arg:
+                return OPAQUE
+            try:
+                if f[2] == 'date':
+                    d = f[1]
+                    return _dt.datetime(d.year, d.month, d.day)
+                return getattr(f[1], f[2])(*args, **kwargs)
+            except (TypeError, ValueError, OverflowError) as ex:
+                raise PyRaise(ex)
+        if isinstance(f, FuncRef):
+            if opaque_arg and not f.fn.name.startswith('safe_create'):
+                return OPAQUE
+            return self.call_function(f, args, kwargs)
+        if isinstance(f, ClassRef):
+            return Obj()
+        if f in BUILTINS.values():
+            if opaque_arg:
+                return OPAQUE
+            if f is _dt.timedelta and (args or set(kwargs) - TD_KW):
+                return OPAQUE
+            try:
+                return f(*args, **kwargs)
+            except (TypeError, ValueError, OverflowError) as ex:
+                raise PyRaise(ex)
+        return OPAQUE
+
+    def call_function(self, fref, args, kwargs):
+        fn = fref.fn
+        self.depth += 1
+        if self.depth > 8:
+            raise Unreadable('call depth')
+        try:
+            params = [a.arg for a in fn.args.args]
+            is_static = any(isinstance(d, ast.Name) and d.id == 'staticmethod' for d in fn.decorator_list)
+            env = {}
+            if fref.cls is not None and not is_static and params and params[0] in ('self', 'cls'):
+                env[params[0]] = OPAQUE
+                params = params[1:]
+            defaults = fn.args.defaults
+            for i, pname in enumerate(params):
+                if i < len(args):
+                    env[pname] = args[i]
+                elif pname in kwargs:
+                    env[pname] = kwargs[pname]
+                else:
+                    di = i - (len(params) - len(defaults))
+                    if di < 0:
+                        raise Unreadable('missing argument %s of %s' % (pname, fn.name))
+                    env[pname] = self.eval(defaults[di], {}, (fref.mod, fref.cls, fn))
+            try:
+                self.block(fn.body, env, (fref.mod, fref.cls, fn))
+            except _Return as r:
+                return r.value
+            return None
+        finally:
+            self.depth -= 1
+
+    # ---- statements
+    def block(self, stmts, env, ctx):
+        for s in stmts:
+            self.stmt(s, env, ctx)
+
+    def assign(self, t, v, env, ctx):
+        if isinstance(t, ast.Name):
+            env[t.id] = v
+        elif isinstance(t, (ast.Tuple, ast.List)):
+            if isinstance(v, (list, tuple)) and len(v) == len(t.elts):
+                for x, y in zip(t.elts, v):
+                    self.assign(x, y, env, ctx)
+            else:
+                for x in t.elts:
+                    self.assign(x, OPAQUE, env, ctx)
+        elif isinstance(t, ast.Attribute):
+            if isinstance(t.value, ast.Name):
+                o = env.get(t.value.id)
+                if not isinstance(o, Obj):
+                    o = env[t.value.id] = Obj()
+                o.attrs[t.attr] = v
+        # subscript stores are ignored
+
+    def stmt(self, s, env, ctx):
+        self.budget -= 1
+        if self.budget < 0:
+            raise Unreadable('evaluation budget exhausted')
+        if isinstance(s, ast.Assign):
+            v = self.eval(s.value, env, ctx)
+            for t in s.targets:
+                self.assign(t, v, env, ctx)
+        elif isinstance(s, ast.AnnAssign):
+            if s.value is not None:
+                self.assign(s.target, self.eval(s.value, env, ctx), env, ctx)
+        elif isinstance(s, ast.AugAssign):
+            if isinstance(s.target, ast.Name):
+                a, b = env.get(s.target.id, OPAQUE), self.eval(s.value, env, ctx)
+                if isinstance(a, CONCRETE) and isinstance(b, CONCRETE):
+                    try:
+                        env[s.target.id] = self.binop(s.op, a, b)
+                    except (TypeError, ValueError, OverflowError, ZeroDivisionError) as ex:
+                        raise PyRaise(ex)
+                else:
+                    env[s.target.id] = OPAQUE
+        elif isinstance(s, ast.If):
+            t = self.eval(s.test, env, ctx)
+            if isinstance(t, Opaque):
+                raise Unreadable('condition `%s` (line %d) depends on a value the interpreter does not model'
+                                 % (ast.unparse(s.test)[:60], s.lineno))
+            self.block(s.body if t else s.orelse, env, ctx)
+        elif isinstance(s, ast.While):
+            n = 0
+            while True:
+                t = self.eval(s.test, env, ctx)
+                if isinstance(t, Opaque):
+                    raise Unreadable('loop condition line %d' % s.lineno)
+                if not t:
+                    break
+                n += 1
+                if n > 500:
+                    raise Unreadable('loop bound')
+                self.block(s.body, env, ctx)
+        elif isinstance(s, ast.Return):
+            raise _Return(self.eval(s.value, env, ctx) if s.value is not None else None)
+        elif isinstance(s, ast.Expr):
+            self.eval(s.value, env, ctx)
+        elif isinstance(s, ast.Try):
+            try:
+                self.block(s.body, env, ctx)
+            except PyRaise as pr:
+                for h in s.handlers:
+                    names = [n.id for n in ast.walk(h.type) if isinstance(n, ast.Name)] if h.type is not None else []
+                    if h.type is None or 'Exception' in names or type(pr.exc).__name__ in names:
+                        self.block(h.body, env, ctx)
+                        break
+                else:
+                    raise
+            else:
+                self.block(s.orelse, env, ctx)
+            self.block(s.finalbody, env, ctx)
+        elif isinstance(s, (ast.Pass, ast.Import, ast.ImportFrom, ast.Break, ast.Continue)):
+            if isinstance(s, (ast.Break, ast.Continue)):
+                raise Unreadable('break/continue')
+        elif isinstance(s, ast.Raise):
+            raise PyRaise(RuntimeError('raise'))
+        elif isinstance(s, (ast.For, ast.With)):
+            raise Unreadable('%s statement line %d' % (type(s).__name__, s.lineno))
+
+
+# ---------------------------------------------------------------------------------------------------
+# C09.feb29 / C09.weekday: the candidate computations evaluated on concrete probes
+
+def _fmt(d):
+    return d.strftime('%Y-%m-%d') if isinstance(d, (_dt.datetime, _dt.date)) else repr(d)
+
+
+def _is_leap(y):
+    return (y % 4 == 0 and y % 100 != 0) or y % 400 == 0
+
+
+def expected_yearless(ref, month, day):
+    """(past, future): latest occurrence strictly before ref's date, earliest on or after it"""
+    occ = []
+    for y in range(ref.year - 9, ref.year + 10):
+        try:
+            occ.append(_dt.datetime(y, month, day))
+        except ValueError:
+            pass
+    day0 = _dt.datetime(ref.year, ref.month, ref.day)
+    return max(d for d in occ if d < day0), min(d for d in occ if d >= day0)
+
+
+FEB29_REF_YEARS = {'leap reference years': [2000, 2016, 2020, 2088], 'non-leap reference years': [2017, 2019, 2021, 2023, 2089, 2100]}
+
+
+def yearless_probes(group):
+    if group in FEB29_REF_YEARS:
+        for y in FEB29_REF_YEARS[group]:
+            days = [(1, 15), (2, 28), (3, 1), (12, 31)] + ([(2, 29)] if _is_leap(y) else [])
+            for m, d in sorted(days):
+                yield _dt.datetime(y, m, d), 2, 29
+    else:
+        for (m, d) in ((11, 7), (1, 1), (12, 31), (3, 1)):
+            for y in (2016, 2017):
+                pivot = _dt.datetime(y, m, d)
+                for delta in (-1, 0, 1):
+                    yield pivot + _dt.timedelta(days=delta), m, d
+
+
+def rule_eval_yearless(chk, idx):
+    rid = 'C09.feb29'
+    chk.rule(rid, 'generate_dates, evaluated on concrete midnight references, returns the latest occurrence strictly before the '
+                  'reference date and the earliest on or after it (29 February: the neighbouring leap years)', floor=3)
+    du = idx.cls(PKG + '.utilities.DateUtils')
+    fn = du.methods.get('generate_dates')
+    if fn is None:
+        raise AnalysisError('anchor vanished: DateUtils.generate_dates')
+    for group in list(FEB29_REF_YEARS) + ['month and day']:
+        bad, n = [], 0
+        for ref, m, d in yearless_probes(group):
+            n += 1
+            it = Interp(idx)
+            try:
+                res = it.call_function(FuncRef(du.mod, du, fn), [True, ref, ref.year, m, d], {})
+            except Unreadable as e:
+                raise AnalysisError('DateUtils.generate_dates cannot be evaluated: %s' % e)
+            except PyRaise as e:
+                bad.append('%s-%02d-%02d at %s raises %s' % ('XXXX', m, d, _fmt(ref), e))
+                continue
+            if not (isinstance(res, tuple) and len(res) == 2 and all(isinstance(x, _dt.datetime) for x in res)):
+                raise AnalysisError('DateUtils.generate_dates: result %r is not a pair of dates' % (res,))
+            fut, past = res
+            wp, wf = expected_yearless(ref, m, d)
+            if (past, fut) != (wp, wf):
+                bad.append('XXXX-%02d-%02d at reference %s -> past %s / future %s, expected %s / %s'
+                           % (m, d, _fmt(ref), _fmt(past), _fmt(fut), _fmt(wp), _fmt(wf)))
+        what = ('29 February, ' + group) if group in FEB29_REF_YEARS else group
+        chk.judge(not bad, rid, du.mod.path, 'DateUtils.generate_dates[%s]' % what,
+                  '%d probes; failing: %s' % (n, '; '.join(bad[:3]) if bad else 'none'),
+                  'generate_dates(no_year=True) does not return (latest before, earliest on/after) the reference date: %s%s'
+                  % ('; '.join(bad[:4]), ' ... (%d failing probes)' % len(bad) if len(bad) > 4 else ''), fn.lineno)
+
+
+def weekday_branch(fn):
+    """the top-level `if` of parse_implicit_date that follows `match = regex.f(self.config.week_day_regex, ...)`"""
+    k = Kinds(fn)
+    for s in fn.body:
+        prev = k.region
+        k.note_region(s)
+        if isinstance(s, ast.If) and prev == 'week_day_regex' and k.region == 'week_day_regex':
+            return s
+    return None
+
+
+def expected_weekday(ref, w):
+    target = w if 1 <= w <= 7 else 7
+    day0 = _dt.datetime(ref.year, ref.month, ref.day)
+    fut = day0
+    while fut.isoweekday() != target:
+        fut += _dt.timedelta(days=1)
+    past = day0 - _dt.timedelta(days=1)
+    while past.isoweekday() != target:
+        past -= _dt.timedelta(days=1)
+    return past, fut
+
+
+def rule_eval_weekday(chk, idx):
+    rid = 'C09.weekday'
+    chk.rule(rid, 'the bare-weekday branch, evaluated over weekday table values 0..7 x the 7 reference weekdays, yields the '
+                  'earliest such weekday on or after the reference date and the latest strictly before it', floor=2)
+    bd = idx.cls(PKG + '.base_date.BaseDateParser')
+    impls = [c for c in [bd] + idx.subclasses(bd) if 'parse_implicit_date' in c.methods]
+    tables = {}
+    for c in impls:
+        fn = c.methods['parse_implicit_date']
+        br = weekday_branch(fn)
+        if br is None:
+            raise AnalysisError('%s.parse_implicit_date: branch guarded by self.config.week_day_regex not found' % c.name)
+        refp = [a.arg for a in fn.args.args if isinstance(a.annotation, ast.Name) and a.annotation.id == 'datetime']
+        if not refp:
+            raise AnalysisError('%s.parse_implicit_date: no datetime parameter' % c.name)
+        bad, n, table = [], 0, {}
+        for w in range(0, 8):
+            for dayoff in range(7):
+                for hour in (0, 12):
+                    ref = _dt.datetime(2016, 11, 7, hour) + _dt.timedelta(days=dayoff)
+                    n += 1
+                    it = Interp(idx, hooks=[(lambda call: isinstance(call.func, ast.Attribute) and call.func.attr == 'get'
+                                             and isinstance(call.func.value, ast.Attribute)
+                                             and call.func.value.attr == 'day_of_week', w)])
+                    env = {refp[0]: ref}
+                    try:
+                        try:
+                            it.block(br.body, env, (c.mod, c, fn))
+                            out = None
+                        except _Return as r:
+                            out = r.value
+                    except Unreadable as e:
+                        raise AnalysisError('%s.parse_implicit_date weekday branch cannot be evaluated: %s' % (c.name, e))
+                    except PyRaise as e:
+                        bad.append('weekday value %d at %s raises %s' % (w, ref.strftime('%a %H:%M'), e))
+                        continue
+                    objs = [out] if isinstance(out, Obj) else [v for v in env.values() if isinstance(v, Obj)]
+                    objs = [o for o in objs if 'future_value' in o.attrs and 'past_value' in o.attrs]
+                    if len(objs) != 1 or not all(isinstance(objs[0].attrs[a], _dt.datetime) for a in ('future_value', 'past_value')):
+                        raise AnalysisError('%s.parse_implicit_date weekday branch: future_value / past_value not produced as dates'
+                                            % c.name)
+                    fut, past = objs[0].attrs['future_value'], objs[0].attrs['past_value']
+                    got = (_dt.datetime(past.year, past.month, past.day), _dt.datetime(fut.year, fut.month, fut.day))
+                    table[(w, dayoff, hour)] = got
+                    want = expected_weekday(ref, w)
+                    if got != want:
+                        bad.append('weekday value %d at reference %s -> past %s / future %s, expected %s / %s'
+                                   % (w, ref.strftime('%a %Y-%m-%d %H:%M'), _fmt(got[0]), _fmt(got[1]), _fmt(want[0]), _fmt(want[1])))
+        tables[c] = table
+        chk.consulted(c.mod.path)
+        chk.judge(not bad, rid, c.mod.path, '%s.parse_implicit_date[week_day_regex]' % c.name,
+                  '%d probes (weekday values 0..7 x 7 reference weekdays x 00:00/12:00); failing: %s'
+                  % (n, '; '.join(bad[:2]) if bad else 'none'),
+                  'the bare-weekday branch does not yield (latest before, earliest on/after) the reference date: %s%s'
+                  % ('; '.join(bad[:3]), ' ... (%d failing probes)' % len(bad) if len(bad) > 3 else ''), br.lineno)
+    if len(impls) > 1:
+        first = impls[0]
+        for c in impls[1:]:
+            diff = [k for k in tables[first] if tables[first].get(k) != tables[c].get(k)]
+            chk.judge(not diff, rid, c.mod.path, '%s ~ %s [week_day_regex]' % (first.name, c.name),
+                      'sibling implementations agree on all probes: %s' % (not diff),
+                      'the sibling weekday branches disagree on %d probes, e.g. weekday value %d, reference +%d days %02d:00'
+                      % (len(diff), diff[0][0], diff[0][1], diff[0][2]) if diff else '', None)
+
+
 def rule_order(chk, idx):
     rid = 'C09.order'
     chk.rule(rid, '_date_time_resolution emits resolveToPast (from past_resolution) before resolveToFuture (from '
@@ -698,5 +1260,7 @@ def run(chk):
     rule_kinds(chk, idx, scoped)
     rule_polarity(chk, idx, scoped)
     rule_order(chk, idx)
+    rule_eval_yearless(chk, idx)
+    rule_eval_weekday(chk, idx)
     chk.assume('a parameter annotated `datetime` (the reference) may carry a time of day; DateUtils.safe_create_* with three '
                'date arguments and datetime(y, m, d) yield midnight; DateUtils.this/next/last add whole days')
